@@ -59,6 +59,18 @@ pub fn lanes() -> Vec<Lane> {
     v.push(fault_lane());
     v.push(frame_lane());
     v.push(Lane {
+        prop: "C14",
+        family: "SYNC",
+        gen: gen::gen_sync,
+        cfg: cfg_default,
+        check: oracle::check_c14,
+        nontrivial: sync_nontrivial,
+        rule: "seeded SYNC scripts (2-9 calls over the whole LdapConn / EntryStream surface incl. modifiers set per call or earlier, streams with and without EntriesOnly, last_id, is_closed, get_peer_certificate, refused calls; server plans: results of every code class, silence with a timeout, delayed replies, disconnect at a random request index, unbind); each script runs once through Ldap / SearchStream on the simulator's executor and once through LdapConn / EntryStream (hook H5) on the same kind of paused-clock runtime; non-trivial = the script used a modifier, a stream, a timeout or met a disconnect; distinct = distinct history-shape hash of the asynchronous run",
+        expand: None,
+        quick: 60_000,
+        thorough: 1_500_000,
+    });
+    v.push(Lane {
         prop: "C16",
         family: "PAGED",
         gen: gen::gen_paged,
@@ -251,6 +263,13 @@ fn seq_resp_nontrivial(sc: &Scenario, _rr: &RunResult) -> bool {
 
 fn paged_nontrivial(_sc: &Scenario, rr: &RunResult) -> bool {
     rr.requests.iter().filter(|q| matches!(q.op, crate::msg::ReqOp::Search { .. })).count() >= 2
+}
+
+fn sync_nontrivial(sc: &Scenario, rr: &RunResult) -> bool {
+    sc.plan.close_on_arrival.is_some()
+        || rr.requests.iter().any(|q| q.ctrls.is_some())
+        || sc.clients[0].steps.iter().any(|s| matches!(s, crate::scenario::Step::Open { .. } | crate::scenario::Step::SetMods { .. }))
+        || rr.hist.iter().any(|e| matches!(&e.kind, EvKind::Return { ret: crate::world::Ret::Err(crate::world::ErrC::Timeout), .. }))
 }
 
 fn cfg_strict_stream(_sc: &Scenario, c: &mut RunCfg) {
